@@ -230,6 +230,23 @@ def run_solver(B, spec, sim, t1=None, record=True):
             return orig_rhs(*a, **k)
 
         setattr(solver, attr, rhs)
+    # systems with rods: the largest position-level constraint residual per block right before the step callback
+    # (nodal quaternion normalisation) touches the converged state of a step
+    R.g_pre = {}
+    R.gd_pre = {}
+    orig_cb = None
+    if record and getattr(B, "rods", None) and system.nla_g:
+        orig_cb = system.step_callback
+        blocks = [(c, c.la_gDOF) for c in system.contributions if hasattr(c, "la_gDOF")]
+
+        def step_cb(t, q, u):
+            g = system.g(t, q)
+            gd = system.g_dot(t, q, u)
+            R.g_pre[sim.step] = {id(c): (float(np.max(np.abs(g[d]))) if len(d) else 0.0) for c, d in blocks}
+            R.gd_pre[sim.step] = {id(c): (float(np.max(np.abs(gd[d]))) if len(d) else 0.0) for c, d in blocks}
+            return orig_cb(t, q, u)
+
+        system.step_callback = step_cb
     try:
         R.sol = solver.solve()
     except (Discard, RunTimeout):
@@ -239,6 +256,8 @@ def run_solver(B, spec, sim, t1=None, record=True):
     finally:
         dsv_mod.fixed_point_iteration = orig_fp
         sim.on_step = None
+        if orig_cb is not None:
+            del system.step_callback  # the instance attribute; the class method is back
     return R
 
 
